@@ -203,6 +203,41 @@ def failing_decls(build_out):
 
 # ---------------------------------------------------------------- hermetic ANDES home / pycode
 
+def repo_tree_hash():
+    """hash of every python/yaml source under /repo/andes (what pycode is generated from)"""
+    h = hashlib.sha1()
+    for d, dirs, files in sorted(os.walk(os.path.join(REPO, 'andes'))):
+        dirs.sort()
+        if '__pycache__' in d:
+            continue
+        for f in sorted(files):
+            if f.endswith(('.py', '.yaml')):
+                p = os.path.join(d, f)
+                h.update(p.encode())
+                h.update(open(p, 'rb').read())
+    return h.hexdigest()
+
+
+def ensure_pycode():
+    """the scratch HOME's ~/.andes/pycode must have been generated from /repo's CURRENT working tree"""
+    home = os.environ.get('HOME', '')
+    if not home.startswith(WORK):
+        return 'HOME is not the scratch home; pycode left to andes'
+    os.makedirs(home, exist_ok=True)
+    stamp = os.path.join(home, 'pycode.treehash')
+    with open(os.path.join(WORK, 'pycode.lock'), 'w') as lk:
+        fcntl.flock(lk, fcntl.LOCK_EX)
+        cur = repo_tree_hash()
+        old = open(stamp).read().strip() if os.path.exists(stamp) else ''
+        have = os.path.isdir(os.path.join(home, '.andes', 'pycode'))
+        if cur != old or not have:
+            regenerate_pycode(home)
+            with open(stamp, 'w') as fh:
+                fh.write(cur)
+            return 'regenerated'
+        return 'up to date'
+
+
 def andes_home(pid):
     """per-property scratch HOME; ~/.andes/pycode is regenerated from /repo's working tree"""
     home = os.path.join(WORK, 'home-' + pid)
